@@ -54,11 +54,16 @@ func keyOfAny(k any) string {
 		}
 		return k.Path()
 	case types.Object:
+		// No absolute positions: for objects of imported packages they
+		// depend on the order in which export data was read (file bases in
+		// the FileSet), which is not under the simulator's control. The
+		// position only breaks ties between equally-printed objects of one
+		// package, whose relative positions are stable.
 		p := ""
 		if k.Pkg() != nil {
 			p = k.Pkg().Path()
 		}
-		return fmt.Sprintf("%s\x00%012d\x00%s\x00%T", p, int(k.Pos()), k.Name(), k)
+		return fmt.Sprintf("%s\x00%s\x00%T\x00%012d", p, types.ObjectString(k, nil), k, int(k.Pos()))
 	case *ast.Ident:
 		return fmt.Sprintf("%012d\x00%s", int(k.Pos()), k.Name)
 	case *types.TypeParam:
